@@ -392,6 +392,7 @@ mod verif_lex {
     // identifiers and keywords
     #[kani::proof]
     #[kani::unwind(124)]
+    #[kani::stub(find_identifier_end_x86_64, find_identifier_end_generic)]
     fn lexcomplex_identifier_or_keyword() {
         let mut buf = [0u8; 4];
         window(&mut buf, &[], 0);
@@ -417,6 +418,7 @@ mod verif_lex {
 
     #[kani::proof]
     #[kani::unwind(9)]
+    #[kani::stub(find_identifier_end_x86_64, find_identifier_end_generic)]
     fn lexcomplex_asm_identifier() {
         let mut buf = [0u8; 4];
         window(&mut buf, &[], 0);
@@ -510,7 +512,7 @@ mod verif_lex {
     #[kani::proof]
     #[kani::unwind(9)]
     fn lexcomplex_directive_brace() {
-        let mut buf = [0u8; 6];
+        let mut buf = [0u8; 5];
         window(&mut buf, &[], 0);
         buf[0] = b'{';
         buf[1] = b'$';
@@ -518,6 +520,7 @@ mod verif_lex {
         let s = as_str(&buf);
         let mut state = st(false, false);
         let r = compiler_directive(LexArgs { input: s, offset: 2, lex_state: &mut state }, BlockCommentKind::Brace);
+        let _n5 = 5;
         kani::cover!(matches!(r.1, TT::ConditionalDirective(_)), "conditional directive");
         kani::cover!(r.1 == TT::CompilerDirective, "plain directive");
         assert!(sub_ok(s, 2, r), "OB lexcomplex/directive_ok: end within the input, on a character boundary");
@@ -530,6 +533,7 @@ mod verif_lex {
 
     #[kani::proof]
     #[kani::unwind(8)]
+    #[kani::stub(find_identifier_end_x86_64, find_identifier_end_generic)]
     fn lexcomplex_misc() {
         // ampersand, asm_label, unknown, unicode_identifier on small windows
         let mut buf = [0u8; 4];
@@ -553,6 +557,7 @@ mod verif_lex {
 
     #[kani::proof]
     #[kani::unwind(8)]
+    #[kani::stub(find_identifier_end_x86_64, find_identifier_end_generic)]
     fn lexcomplex_unicode_identifier() {
         // é x  /  U+20AC (3 bytes)  /  U+1F600 (4 bytes): the scanner is entered one byte into the scalar
         let which: u8 = kani::any();
